@@ -40,7 +40,18 @@ structure Kevent where
   qual : Nat
   deriving DecidableEq, Repr, Inhabited
 
+/-- Where a `Kevent` field comes from in `from_kd_buf` (emitted by the translator from the function's AST):
+    position `i` of the `struct.unpack` tuple, that position masked, or a second unpack of that position. -/
+inductive KSrc
+  | field (i : Nat) | andMask (i : Nat) (mask : Nat) | unpackOf (i : Nat) (fmt : List FieldSpec) | unsupported
+  deriving DecidableEq, Repr
+
 def argsFormat : List FieldSpec := [.u64, .u64, .u64, .u64]
+
+/-- The shape `decodeWith` implements (masks are parameters there). -/
+def expectedShape (idMask fnMask : Nat) : List (String × KSrc) :=
+  [("timestamp", .field 0), ("data", .field 1), ("values", .unpackOf 1 argsFormat), ("tid", .field 2),
+   ("debugid", .field 3), ("eventid", .andMask 3 idMask), ("func_qualifier", .andMask 3 fnMask)]
 
 /-- `from_kd_buf` with the record format and the two masks as parameters. -/
 def decodeWith (fmt : List FieldSpec) (idMask fnMask : Nat) (bs : Bytes) : Except PyErr Kevent :=
